@@ -300,6 +300,10 @@ where
                             Ok(()) => Ok(()),
                             Err(bad) => {
                                 failed.set(true);
+                                // the other shards stop starting new cases as soon as one failure is known
+                                // (not only once it has been shrunk): against a tree that hangs on many
+                                // inputs every further failing case costs minutes
+                                stop.store(true, Ordering::Relaxed);
                                 let reason = bad.reason.clone();
                                 LAST_BAD.with(|b| *b.borrow_mut() = Some(bad));
                                 Err(TestCaseError::fail(reason))
